@@ -33,7 +33,7 @@ RES = re.compile(r'VERIFICATION:- (SUCCESSFUL|FAILED)')
 
 def run(crate_dir, harness, timeout=1800, extra=(), mem_gb=24, playback=True, stubbing=False):
     """Returns dict(status=success|failed|error|timeout, failed_checks=[...], values=[[bytes]...], secs, out)."""
-    tgt = os.path.join(crate_dir, 'target-' + harness)
+    tgt = os.path.join(crate_dir, 'target-' + harness.replace(':', '_'))
     cmd = ['cargo', 'kani', '--harness', harness, '--exact', '--target-dir', tgt]
     if playback:
         cmd += ['-Z', 'concrete-playback', '--concrete-playback=print']
